@@ -674,6 +674,11 @@ bufferevent_priority_set(struct bufferevent *bufev, int priority)
 	if (BEV_IS_ASYNC(bufev) || BEV_IS_FILTER(bufev) || BEV_IS_PAIR(bufev))
 		goto done;
 
+	/* like an active event, a scheduled deferred callback sits in the
+	 * queue of its current priority and cannot be given another one */
+	if (bufev_p->deferred.evcb_flags & (EVLIST_ACTIVE|EVLIST_ACTIVE_LATER))
+		goto done;
+
 	if (event_priority_set(&bufev->ev_read, priority) == -1)
 		goto done;
 	if (event_priority_set(&bufev->ev_write, priority) == -1)
